@@ -20,7 +20,12 @@ RULES = [
     (r"prune", ["C15", "C09", "C05"]),
     (r"actions/(create|delete)-|services/grpc", ["C12", "C16", "C17", "C09"]),
     (r"^parse/", ["C16", "C03"]),
-    (r"^ent/", ["C01", "C06"]),
+    (r"^ent/", ["C01", "C06", "C09", "C03"]),
+    (r"^actions/action", ["C09", "C01", "C03", "C10"]),
+    (r"services/grpc-subscriber", ["C11", "C03", "C04", "C14"]),
+    (r"^grpc/", ["C16", "C18"]),
+    (r"services/(prune|deadletter|http-push|wrap|module)", ["C15", "C06", "C19", "C09"]),
+    (r"^controllers/", ["C18"]),
 ]
 def checks_for(meta):
     out = [meta["property"]]
